@@ -71,11 +71,21 @@ Fixpoint insert_bytes (x : bytes) (l : list bytes) : list bytes :=
   match l with [] => [x] | y :: r => if bytes_leb x y then x :: l else y :: insert_bytes x r end.
 Definition sort_bytes (l : list bytes) : list bytes := fold_right insert_bytes [] l.
 
+(* A validation message is compared by the field it blames, not by its wording (no property fixes the wording):
+   "for `NAME`: text" becomes NAME (up to the first back-tick), any other message becomes the empty string. *)
+Fixpoint until_tick (s : bytes) : bytes :=
+  match s with [] => [] | c :: r => if N.eqb c 96 then [] else c :: until_tick r end.
+Definition blamed (m : bytes) : bytes :=
+  match m with
+  | 102%N :: 111%N :: 114%N :: 32%N :: 96%N :: r => until_tick r
+  | _ => []
+  end.
+
 Definition enc_result (sorted : bool) (ro : result * bytes) : sx :=
   let '(r, out) := ro in
   let r' := match r with
             | ROk => L [A 0%Z]
-            | RValidation msgs => L [A 1%Z; L (map B (sort_bytes msgs))]
+            | RValidation msgs => L [A 1%Z; L (map B (sort_bytes (map blamed msgs)))]
             | RIo z => L [A 2%Z; of_bool z]
             end in
   L [r'; if sorted then L (map B (sort_bytes (split_lines out []))) else B out].
